@@ -284,10 +284,15 @@ fn check(args: &[String]) -> i32 {
             })
             .collect();
         let tb = Instant::now();
-        let replies = pool::run_all(&cfg, &reqs);
-        write_digests(b.label, &replies);
-        let mut classes: BTreeMap<String, (usize, V)> = BTreeMap::new();
-        for (i, r) in replies.iter().enumerate() {
+        // (class -> representative: its request, its reply, the violation) -- replies are processed chunk by chunk so that
+        // a batch of millions of runs does not keep every reply in memory
+        let mut classes: BTreeMap<String, (Value, Reply, V)> = BTreeMap::new();
+        const CHUNK: usize = 100_000;
+        for (ci, chunk) in reqs.chunks(CHUNK).enumerate() {
+        let replies = pool::run_all(&cfg, chunk);
+        write_digests(b.label, ci * CHUNK, &replies);
+        for (j, r) in replies.iter().enumerate() {
+            let i = ci * CHUNK + j;
             evaluations += 1;
             if let Reply::Ok(v) = r {
                 let st = &v["stats"];
@@ -314,16 +319,17 @@ fn check(args: &[String]) -> i32 {
             for v in violations_of(&prop, r) {
                 let class = format!("{}|{}", v.0, v.1);
                 *class_counts.entry(format!("{}|{class}", b.label)).or_default() += 1;
-                classes.entry(class).or_insert((i, v));
+                classes.entry(class).or_insert_with(|| (chunk[j].clone(), r.clone(), v));
             }
         }
+        }
         batch_info.push(json!({"batch": b.label, "binary": b.binary, "runs": b.runs, "wall_s": tb.elapsed().as_secs_f64(), "violation_classes": classes.len()}));
-        for (class, (idx, (inv, sig, detail))) in classes.iter().take(10) {
+        for (class, (req0, reply0, (inv, sig, detail))) in classes.iter().take(10) {
             let _ = std::fs::create_dir_all(&opts.replay_dir);
             let path = format!("{}/{prop}-{}-{}-{:016x}.json", opts.replay_dir, b.label, opts.seed, simkit::fnv(class.as_bytes()));
-            let Reply::Ok(v) = &replies[*idx] else {
+            let Reply::Ok(v) = reply0 else {
                 println!("violation: {inv} :: {sig} :: {detail}");
-                std::fs::write(&path, serde_json::to_string_pretty(&json!({"engine": "sim_world", "binary": b.binary, "property": prop, "request": reqs[*idx], "expected": {"invariant": inv, "signature": sig}})).unwrap()).expect("write replay");
+                std::fs::write(&path, serde_json::to_string_pretty(&json!({"engine": "sim_world", "binary": b.binary, "property": prop, "request": req0, "expected": {"invariant": inv, "signature": sig}})).unwrap()).expect("write replay");
                 println!("VIOLATION property={prop} replay={path}");
                 reported += 1;
                 continue;
@@ -344,7 +350,7 @@ fn check(args: &[String]) -> i32 {
             }
             let rp = json!({
                 "engine": "sim_world", "binary": b.binary, "mode": b.mode, "property": prop, "seed": opts.seed, "tier": opts.tier, "batch": b.label,
-                "plan": minimal, "original_request": reqs[*idx], "original_plan": v["plan"],
+                "plan": minimal, "original_request": req0, "original_plan": v["plan"],
                 "expected": {"invariant": inv, "signature": sig, "detail": detail2},
             });
             std::fs::write(&path, serde_json::to_string_pretty(&rp).unwrap() + "\n").expect("write replay");
@@ -450,10 +456,12 @@ fn minimise_server(prop: &str, cfg: &PoolConfig, plan: &Value, inv: &str, sig: &
 }
 
 /// Determinism self-test support: one line per run with a hash of the worker's full reply.
-fn write_digests(label: &str, replies: &[Reply]) {
+fn write_digests(label: &str, offset: usize, replies: &[Reply]) {
+    use std::io::Write;
     let Ok(path) = std::env::var("VERIF_DIGEST_OUT") else { return };
     let mut out = String::new();
     for (i, r) in replies.iter().enumerate() {
+        let i = i + offset;
         let d = match r {
             Reply::Ok(v) => format!("{:016x}", simkit::fnv(v.to_string().as_bytes())),
             Reply::Died(_) => "died".to_string(),
@@ -462,7 +470,10 @@ fn write_digests(label: &str, replies: &[Reply]) {
         };
         out.push_str(&format!("{i} {d}\n"));
     }
-    let _ = std::fs::write(format!("{path}.{label}"), out);
+    // (appended: a batch arrives in chunks; the self-test starts from an empty directory)
+    if let Ok(mut f) = std::fs::OpenOptions::new().create(true).append(true).open(format!("{path}.{label}")) {
+        let _ = f.write_all(out.as_bytes());
+    }
 }
 
 fn replay(args: &[String]) -> i32 {
